@@ -88,7 +88,13 @@ static inline uint64_t popper(void) {
   return mine;
 }
 
-#if defined(CFG_2P1C)
+#if defined(CFG_MIX)
+/* one thread pushes and then pops itself, two more poppers: three pop attempts race over two items (a popper holding a stale `high`
+   while another one has claimed a slot but not yet cleared it) */
+void vm_thread_1(void) { pusher(0, NPUSH); res1 = popper(); }
+void vm_thread_2(void) { res2 = popper(); }
+void vm_thread_3(void) { (void)popper(); }
+#elif defined(CFG_2P1C)
 void vm_thread_1(void) { pusher(0, NPUSH); }
 void vm_thread_2(void) { pusher(1, NPUSH2); }
 void vm_thread_3(void) { res1 = popper(); }
